@@ -62,6 +62,10 @@ def menu(names):
         # the reference
         m.append('role:%s or rule:%s' % (n, n))
         m.append('is_admin:%s and rule:%s' % (n, n))
+        # a CONSTANT operand ahead of the reference in the same group
+        m.append('! or rule:%s' % n)
+        m.append('@ and not rule:%s' % n)
+    m.append('role:x or (! and rule:%s)' % UNDEF)
     return m
 
 
